@@ -187,3 +187,67 @@ class Grammar:
                 return self.mentions(self.rules[e["v"]]["expr"], name, seen | {e["v"]})
             return False
         return any(self.mentions(v, name, seen) for k, v in e.items() if isinstance(v, dict))
+
+
+    # ---- a PEG evaluator for small, atomic rules (used to compare a token rule with the syntax a Rust parser accepts)
+    def peg_match(self, e, text, pos=0, depth=0):
+        """end position if expression e matches a prefix of text[pos:] (PEG semantics, no implicit whitespace:
+        only meant for atomic rules), else None"""
+        if depth > 200:
+            return None
+        k = e["k"]
+        if k == "str":
+            return pos + len(e["v"]) if text.startswith(e["v"], pos) else None
+        if k == "insens":
+            return pos + len(e["v"]) if text[pos:pos + len(e["v"])].lower() == e["v"].lower() else None
+        if k == "range":
+            return pos + 1 if pos < len(text) and e["a"] <= text[pos] <= e["b"] else None
+        if k == "ident":
+            v = e["v"]
+            if v == "ASCII_DIGIT":
+                return pos + 1 if pos < len(text) and text[pos] in "0123456789" else None
+            if v == "ASCII_NONZERO_DIGIT":
+                return pos + 1 if pos < len(text) and text[pos] in "123456789" else None
+            if v == "ANY":
+                return pos + 1 if pos < len(text) else None
+            if v == "SOI":
+                return pos if pos == 0 else None
+            if v == "EOI":
+                return pos if pos == len(text) else None
+            if v in self.rules:
+                return self.peg_match(self.rules[v]["expr"], text, pos, depth + 1)
+            return None
+        if k == "seq":
+            p1 = self.peg_match(e["a"], text, pos, depth + 1)
+            return None if p1 is None else self.peg_match(e["b"], text, p1, depth + 1)
+        if k == "choice":
+            p1 = self.peg_match(e["a"], text, pos, depth + 1)
+            return p1 if p1 is not None else self.peg_match(e["b"], text, pos, depth + 1)
+        if k == "opt":
+            p1 = self.peg_match(e["e"], text, pos, depth + 1)
+            return pos if p1 is None else p1
+        if k in ("rep", "rep1"):
+            n, cur = 0, pos
+            while True:
+                p1 = self.peg_match(e["e"], text, cur, depth + 1)
+                if p1 is None or p1 == cur:
+                    break
+                cur, n = p1, n + 1
+            return cur if (k == "rep" or n >= 1) else None
+        if k == "pospred":
+            return pos if self.peg_match(e["e"], text, pos, depth + 1) is not None else None
+        if k == "negpred":
+            return pos if self.peg_match(e["e"], text, pos, depth + 1) is None else None
+        return None
+
+    def full_matches(self, rule, alphabet, maxlen):
+        """all strings over `alphabet` up to `maxlen` characters that rule matches entirely"""
+        import itertools
+        e = self.rules[rule]["expr"]
+        out = []
+        for n in range(1, maxlen + 1):
+            for tup in itertools.product(alphabet, repeat=n):
+                s = "".join(tup)
+                if self.peg_match(e, s, 0) == n:
+                    out.append(s)
+        return out
